@@ -343,7 +343,7 @@ class JnpDigitizePlugin(PrimitiveLeafPlugin):
 
         x_dtype: np.dtype[Any] = np.dtype(getattr(x_var.aval, "dtype", np.float32))
         bins_dtype: np.dtype[Any] = np.dtype(getattr(bins_var.aval, "dtype", x_dtype))
-        compare_dtype: np.dtype[Any] = np.promote_types(x_dtype, bins_dtype)
+        compare_dtype: np.dtype[Any] = np.dtype(jnp.promote_types(x_dtype, bins_dtype))
 
         x_val = ctx.get_value_for_var(x_var, name_hint=ctx.fresh_name("digitize_x"))
         bins_val = ctx.get_value_for_var(
